@@ -384,7 +384,7 @@ func (path *Path) Clone(isWithdraw bool) *Path {
 		family:           path.family,
 		IsWithdraw:       isWithdraw,
 		IsNexthopInvalid: path.IsNexthopInvalid,
-		localID:          path.localID,
+		localID:          path.LocalID(),
 		remoteID:         path.remoteID,
 	}
 	p.attrsHash.Store(path.attrsHash.Load())
@@ -494,7 +494,7 @@ func (path *Path) mpReachNexthops() (netip.Addr, netip.Addr) {
 func (path *Path) SetNexthop(nexthop netip.Addr) {
 	if path.GetFamily() == bgp.RF_IPv4_UC && nexthop.Is6() {
 		path.delPathAttr(bgp.BGP_ATTR_TYPE_NEXT_HOP)
-		mpreach, _ := bgp.NewPathAttributeMpReachNLRI(path.GetFamily(), []bgp.PathNLRI{{NLRI: path.GetNlri(), ID: path.localID}}, nexthop)
+		mpreach, _ := bgp.NewPathAttributeMpReachNLRI(path.GetFamily(), []bgp.PathNLRI{{NLRI: path.GetNlri(), ID: path.LocalID()}}, nexthop)
 		path.setPathAttr(mpreach)
 		return
 	}
@@ -638,7 +638,7 @@ func (path *Path) String() string {
 func (path *Path) GetLocalKey() PathLocalKey {
 	return PathLocalKey{
 		PathDestLocalKey: path.GetDestLocalKey(),
-		Id:               path.localID,
+		Id:               path.LocalID(),
 	}
 }
 
@@ -1277,7 +1277,7 @@ func (v *Vrf) ToGlobalPath(path *Path) error {
 	path.SetExtCommunities(v.ExportRt, false)
 	// FIXME: we should not need to keep mp reach in Path.
 	path.delPathAttr(bgp.BGP_ATTR_TYPE_NEXT_HOP)
-	mpreach, _ := bgp.NewPathAttributeMpReachNLRI(path.family, []bgp.PathNLRI{{NLRI: path.OriginInfo().nlri, ID: path.localID}}, nh)
+	mpreach, _ := bgp.NewPathAttributeMpReachNLRI(path.family, []bgp.PathNLRI{{NLRI: path.OriginInfo().nlri, ID: path.LocalID()}}, nh)
 	path.setPathAttr(mpreach)
 	return nil
 }
@@ -1345,9 +1345,9 @@ func (p *Path) ToGlobal(vrf *Vrf) *Path {
 	path := NewPath(newFamily, p.OriginInfo().source, bgp.PathNLRI{NLRI: nlri}, p.IsWithdraw, p.GetPathAttrs(), p.GetTimestamp(), false)
 	path.SetExtCommunities(vrf.ExportRt, false)
 	path.delPathAttr(bgp.BGP_ATTR_TYPE_NEXT_HOP)
-	attr, _ := bgp.NewPathAttributeMpReachNLRI(newFamily, []bgp.PathNLRI{{NLRI: nlri, ID: p.localID}}, nh)
+	attr, _ := bgp.NewPathAttributeMpReachNLRI(newFamily, []bgp.PathNLRI{{NLRI: nlri, ID: p.LocalID()}}, nh)
 	path.setPathAttr(attr)
-	path.localID = p.localID
+	path.setLocalID(p.LocalID())
 	path.remoteID = p.remoteID
 	return path
 }
@@ -1399,7 +1399,7 @@ func (p *Path) ToLocal() *Path {
 		path.setPathAttr(pa)
 	}
 	path.IsNexthopInvalid = p.IsNexthopInvalid
-	path.localID = p.localID
+	path.setLocalID(p.LocalID())
 	path.remoteID = p.remoteID
 	return path
 }
@@ -1439,8 +1439,15 @@ func (p *Path) SetSource(peerInfo *PeerInfo) {
 	}
 }
 
+// The local id is assigned (and, when the very path object is fed to the table
+// again by a soft reset, re-assigned) under the table lock while watchers and
+// senders holding the path read it.
 func (p *Path) LocalID() uint32 {
-	return p.localID
+	return atomic.LoadUint32(&p.localID)
+}
+
+func (p *Path) setLocalID(id uint32) {
+	atomic.StoreUint32(&p.localID, id)
 }
 
 func (p *Path) RemoteID() uint32 {
